@@ -199,12 +199,66 @@ def _finish_returns(t, top):
     return _push_ctor(conv(t)) if top else t
 
 
+def _canon_match_free(scr, arms):
+    return Norm._canon_match(_FREE, scr, arms)
+
+
+def _hole(t):
+    """(context, inner): inner is the sub-term in the only strictly evaluated position of t that holds a `return` of this function"""
+    if t[0] == "call":
+        lazy = _LAZY_ARGS.get(t[1], ())
+        idx = [i for i, a in enumerate(t[2]) if _has_ret(a)]
+        if len(idx) == 1 and idx[0] not in lazy and t[1] not in ("then", "search"):
+            i = idx[0]
+            return (lambda x: ("call", t[1], list(t[2][:i]) + [x] + list(t[2][i + 1:]))), t[2][i]
+    elif t[0] == "field":
+        return (lambda x: ("field", x, t[2])), t[1]
+    elif t[0] == "proj":
+        return (lambda x: ("proj", x, t[2], t[3])), t[1]
+    elif t[0] == "try":
+        return (lambda x: ("try", x)), t[1]
+    return None
+
+
 def _push_ctor(t):
-    """as the result of a function:  Some(match x { A => a, _ => return None })   ==   match x { A => Some(a), _ => None }"""
-    if t[0] == "call" and t[1] in ("Some", "Ok") and len(t[2]) == 1:
-        m = _push_ctor(t[2][0])
-        if m[0] == "match" and any(_rets(b) for _p, _g, b in m[2]) and all(g is None for _p, g, _b in m[2]):
-            return ("match", m[1], [(p, g, _unreturn(b) if _rets(b) else b if _diverges(b) else ("call", t[1], [b])) for p, g, b in m[2]])
+    """as the result of a function, a strict context around a match with returning arms moves into the other arms:
+         f(match x { A => a, B => return v })          ==   match x { A => f(a), B => v }
+         f(match x { A => { if c { return v } a } })    ==   match x { A => if c { v } else { f(a) } }"""
+    if not _has_ret(t):
+        return t
+    ctxs, inner = [], t
+    while True:
+        h = _hole(inner)
+        if h is None:
+            break
+        ctxs.append(h[0])
+        inner = h[1]
+    if not ctxs:
+        return t
+
+    def K(x):
+        for c in reversed(ctxs):
+            x = c(x)
+        return x
+
+    def arm(b):
+        if _rets(b):
+            return _unreturn(b)
+        if b[0] == "early" and all(v[0] == "ret" and c != ("lit", "match") for c, v in b[1]):
+            return _ret_chain(list(b[1]), K(b[2]))
+        if _diverges(b):
+            return b
+        if _has_ret(b):
+            return None
+        return K(b)
+    if inner[0] == "match" and all(g is None for _p, g, _b in inner[2]):
+        arms = [(p, g, arm(b)) for p, g, b in inner[2]]
+        if all(b is not None for _p, _g, b in arms):
+            return _canon_match_free(inner[1], arms)
+    if inner[0] == "early":
+        r = arm(inner)
+        if r is not None:
+            return r
     return t
 
 
@@ -1997,11 +2051,19 @@ def _mk_iflet(pat, scr, then, els):
     if _diverges(then) and _is_unit(els):
         return ("early", [(_let(pat, scr), then)], ("lit", "()"))
     if pat in ("v1::Some($)", "Option::Some($)") and scr[0] == "match" and all(g is None for _p, g, _b in scr[2]) \
-            and all(b == ("def", "v1::None") or (b[0] == "call" and b[1] == "Some" and len(b[2]) == 1) for _p, _g, b in scr[2]):
-        # if let Some(v) = match x { A => Some(a), _ => None } { f(v) } else { e }   ==   match x { A => f(a), _ => e }
+            and all(b == ("def", "v1::None") or (b[0] == "call" and b[1] == "Some" and len(b[2]) == 1) or (b[0] == "call" and b[1] == "then" and len(b[2]) == 2)
+                    for _p, _g, b in scr[2]):
+        # if let Some(v) = match x { A => Some(a), B => c.then(|| b), _ => None } { f(v) } else { e }
+        #    ==   match x { A => f(a), B => if c { f(b) } else { e }, _ => e }
         payload = ("proj", scr, pat.split("(")[0], "0")
-        return ("match", scr[1], [(p, g, els if b == ("def", "v1::None") else rewrite(then, lambda n, b=b: b[2][0] if n == payload else None))
-                                  for p, g, b in scr[2]])
+
+        def arm(b):
+            if b == ("def", "v1::None"):
+                return els
+            if b[1] == "then":
+                return _mk_if(b[2][0], rewrite(then, lambda n: b[2][1] if n == payload else None), els)
+            return rewrite(then, lambda n: b[2][0] if n == payload else None)
+        return _canon_match_free(scr[1], [(p, g, arm(b)) for p, g, b in scr[2]])
     return _mk_if(_let(pat, scr), then, els)        # matches!(x, PAT) == let PAT = x
 
 
@@ -2816,3 +2878,6 @@ def calls_in(t, name=None):
 def contains(t, sub):
     ss = show(sub) if not isinstance(sub, str) else sub
     return ss in show(t, 10 ** 7)
+
+
+_FREE = object.__new__(Norm)        # canonical forms that need no function context (module-level helpers call Norm._canon_match through it)
